@@ -150,3 +150,52 @@ class ForkPool:
         for tid, status, payload in self.imap(fn, list(enumerate(args)), timeout=timeout):
             out[tid] = (status, payload)
         return out
+
+
+def fork_call(fn, arg, workdir, timeout=60.0):
+    """Run fn(arg) in a forked copy of the *current* process (used by a still-pristine child to obtain a reference
+    observation from another pristine process).  Returns (status, payload) like ForkPool."""
+    r, w = os.pipe()
+    sys.stdout.flush(); sys.stderr.flush()
+    pid = os.fork()
+    if pid == 0:
+        os.close(r)
+        try:
+            os.makedirs(workdir, exist_ok=True)
+            os.chdir(workdir)
+            try:
+                out = ('ok', fn(arg))
+            except BaseException as e:
+                out = ('exc', ''.join(traceback.format_exception(type(e), e, e.__traceback__))[-4000:])
+            data = pickle.dumps(out, protocol=4)
+            view = memoryview(data)
+            while view:
+                n = os.write(w, view[:1 << 16])
+                view = view[n:]
+        finally:
+            os._exit(0)
+    os.close(w)
+    chunks = []
+    t0 = time.monotonic()
+    status = None
+    while True:
+        ready, _, _ = select.select([r], [], [], 0.25)
+        if ready:
+            b = os.read(r, 1 << 20)
+            if not b:
+                break
+            chunks.append(b)
+        elif time.monotonic() - t0 > timeout:
+            try: os.kill(pid, signal.SIGKILL)
+            except ProcessLookupError: pass
+            status = 'timeout'
+            break
+    os.close(r)
+    os.waitpid(pid, 0)
+    shutil.rmtree(workdir, ignore_errors=True)
+    if status:
+        return status, f'killed after {timeout}s'
+    data = b''.join(chunks)
+    if not data:
+        return 'crash', 'no result from reference process'
+    return pickle.loads(data)
